@@ -127,12 +127,15 @@ func classify(parser, s string) verdictT {
 			return verdictT{verdict: unspecified, reason: "ref-on-bounds"}
 		}
 	case "element":
+		// element and feature identifiers only exist for node, way and relation:
+		// for these two parsers every other kind is an unknown kind and must be
+		// rejected, not turned into an id of a kind the identifier cannot carry
 		if !isElementKind(kind) {
-			return verdictT{verdict: unspecified, reason: "non-element-kind"}
+			return verdictT{verdict: invalid, reason: "kind-unknown-to-element-ids"}
 		}
 	case "feature":
 		if !isElementKind(kind) {
-			return verdictT{verdict: unspecified, reason: "non-element-kind"}
+			return verdictT{verdict: invalid, reason: "kind-unknown-to-feature-ids"}
 		}
 		if hasVer {
 			return verdictT{verdict: unspecified, reason: "version-part-on-feature-id"}
